@@ -1163,18 +1163,93 @@ func runR104(c *core.Ctx) {
 	}
 	// GenericPointer over all atoms
 	_, gp := mustDecl(c, rel, "GenericPointer")
+	rows, badRows, firstBad := pointerTable(inf, gp, false)
+	c.Check(badRows == 0 && rows > 0, rel, "GenericPointer", fmt.Sprintf("nil/identity/value table (%d rows, exhaustive)", rows), gp.Pos(), "", firstBad)
+	// every other comparison of two optional values (two pointer parameters) either hands both pointers, unchanged, to a
+	// function that satisfies the table, or satisfies the table itself (any call on the way counting as the comparison of
+	// the pointed-to values)
+	okFn := map[*types.Func]bool{}
+	if f, _ := inf.Defs[gp.Name].(*types.Func); f != nil && badRows == 0 {
+		okFn[f] = true
+	}
+	type cand struct {
+		fd   *ast.FuncDecl
+		f    *types.Func
+		l, r types.Object
+	}
+	var cands []cand
+	for _, fd := range c.M.FuncDecls(rel) {
+		f, _ := inf.Defs[fd.Name].(*types.Func)
+		if fd.Body == nil || f == nil || fd == gp || fd.Recv != nil {
+			continue
+		}
+		var ps []types.Object
+		for _, fl := range fd.Type.Params.List {
+			for _, nm := range fl.Names {
+				ps = append(ps, inf.Defs[nm])
+			}
+		}
+		if len(ps) < 2 {
+			continue
+		}
+		_, lp := ps[0].Type().(*types.Pointer)
+		_, rp := ps[1].Type().(*types.Pointer)
+		if lp && rp {
+			cands = append(cands, cand{fd, f, ps[0], ps[1]})
+		}
+	}
+	delegates := func(cd cand) bool {
+		if len(cd.fd.Body.List) != 1 {
+			return false
+		}
+		r, ok := cd.fd.Body.List[0].(*ast.ReturnStmt)
+		if !ok || len(r.Results) != 1 {
+			return false
+		}
+		call, ok := core.Unparen(r.Results[0]).(*ast.CallExpr)
+		if !ok || len(call.Args) < 2 {
+			return false
+		}
+		g := core.Callee(inf, call)
+		return g != nil && okFn[g.Origin()] && core.ObjOf(inf, call.Args[0]) == cd.l && core.ObjOf(inf, call.Args[1]) == cd.r
+	}
+	for changed := true; changed; {
+		changed = false
+		for _, cd := range cands {
+			if !okFn[cd.f] && delegates(cd) {
+				okFn[cd.f] = true
+				changed = true
+			}
+		}
+	}
+	for _, cd := range cands {
+		if okFn[cd.f] {
+			c.OK(rel, core.DeclName(cd.fd), "optional presence is decided by GenericPointer", cd.fd.Pos(), "")
+			continue
+		}
+		n, bad, first := pointerTable(inf, cd.fd, true)
+		c.Check(bad == 0 && n > 0, rel, core.DeclName(cd.fd), "optional presence is decided by GenericPointer", cd.fd.Pos(), "",
+			"neither delegates to a function satisfying the nil/identity/value table nor satisfies it: "+first)
+	}
+}
+
+// pointerTable evaluates a comparison of two optional values (its first two parameters are pointers) over every
+// combination of (left nil, right nil, same pointer, pointed-to values equal) and compares with: both nil or same pointer
+// -> true, exactly one nil -> false, else the values' comparison.  With anyCall, every call met on the way counts as the
+// comparison of the values (and must not happen while a pointer is nil); otherwise only calls of the third parameter do.
+func pointerTable(inf *types.Info, gp *ast.FuncDecl, anyCall bool) (rows, badRows int, firstBad string) {
 	var left, right, eq types.Object
 	var names []*ast.Ident
 	for _, f := range gp.Type.Params.List {
 		names = append(names, f.Names...)
 	}
-	if len(names) != 3 {
-		c.Unknown(rel, "GenericPointer", "parameters", gp.Pos(), "expected (left, right, equals)")
-		return
+	if len(names) < 2 || (!anyCall && len(names) != 3) {
+		return 0, 1, "expected (left, right, equals)"
 	}
-	left, right, eq = inf.Defs[names[0]], inf.Defs[names[1]], inf.Defs[names[2]]
-	rows, badRows := 0, 0
-	var firstBad string
+	left, right = inf.Defs[names[0]], inf.Defs[names[1]]
+	if len(names) >= 3 {
+		eq = inf.Defs[names[2]]
+	}
 	for _, ln := range []bool{true, false} {
 		for _, rn := range []bool{true, false} {
 			for _, same := range []bool{true, false} {
@@ -1210,9 +1285,15 @@ func runR104(c *core.Ctx) {
 								}
 							}
 						case *ast.CallExpr:
-							if id, ok := core.Unparen(x.Fun).(*ast.Ident); ok && core.ObjOf(inf, id) == eq {
+							if id, ok := core.Unparen(x.Fun).(*ast.Ident); ok && eq != nil && core.ObjOf(inf, id) == eq {
 								called = true
 								return eqv, true
+							}
+							if anyCall {
+								if tv, isT := inf.Types[x.Fun]; !isT || !(tv.IsType() || tv.IsBuiltin()) {
+									called = true
+									return eqv, true
+								}
 							}
 						}
 						return nil, false
@@ -1232,14 +1313,14 @@ func runR104(c *core.Ctx) {
 					if got != fmt.Sprint(want) || derefNil {
 						badRows++
 						if firstBad == "" {
-							firstBad = fmt.Sprintf("left nil=%v right nil=%v same=%v elements equal=%v: returns %s, expected %v (dereferences nil: %v)", ln, rn, same, eqv, got, want, derefNil)
+							firstBad = fmt.Sprintf("left nil=%v right nil=%v same=%v elements equal=%v: returns %s, expected %v (compares through a nil pointer: %v)", ln, rn, same, eqv, got, want, derefNil)
 						}
 					}
 				}
 			}
 		}
 	}
-	c.Check(badRows == 0, rel, "GenericPointer", fmt.Sprintf("nil/identity/value table (%d rows, exhaustive)", rows), gp.Pos(), "", firstBad)
+	return rows, badRows, firstBad
 }
 
 func returnsConst(inf *types.Info, body *ast.BlockStmt, val string) bool {
